@@ -15,7 +15,7 @@ import os
 
 _APPLIED: list[str] = []
 _DONE = False
-LOG_COUNTS = {"timeouts": 0, "errors": 0, "timeouts_during_assertion_generation": 0}
+LOG_COUNTS = {"timeouts": 0, "errors": 0, "executor_warnings": 0, "timeouts_during_assertion_generation": 0}
 
 
 # ---------------------------------------------------------------------------------------------------------------------
@@ -282,13 +282,81 @@ NEEDS_PYTEST_PATCH = [
 ]
 
 
+MINIMIZER_PATCH = [
+    (
+        "def _directly_asserted_variables(test_case: tc.TestCase) -> set[str]:\n",
+        "def _is_assertion_protected(statement: tc.Statement, protected: set[str]) -> bool:\n"
+        "    \"\"\"A statement must stay if it carries assertions, binds an asserted variable, or touches one.\n\n"
+        "    A call on (or with) an asserted object may change the state a later assertion observes;\n"
+        "    removing it keeps the coverage but makes the already generated assertion stale.\n"
+        "    \"\"\"\n"
+        "    return (\n"
+        "        bool(statement.assertions)\n"
+        "        or statement.bound_variable in protected\n"
+        "        or bool(statement.used_variables() & protected)\n"
+        "    )\n\n\n"
+        "def _directly_asserted_variables(test_case: tc.TestCase) -> set[str]:\n",
+    ),
+    (
+        "                if statement.bound_variable in protected:\n",
+        "                if _is_assertion_protected(statement, protected):\n",
+        2,
+    ),
+    (
+        "                test_case = test_case_chrom.test_case\n                i = 0\n                while i < test_case.size():\n",
+        "                test_case = test_case_chrom.test_case\n"
+        "                protected = get_assertion_protected_variables(test_case)\n"
+        "                i = 0\n"
+        "                while i < test_case.size():\n"
+        "                    if _is_assertion_protected(test_case.get_statement(i), protected):\n"
+        "                        i += 1\n"
+        "                        continue\n",
+    ),
+]
+
+
+DESERIALIZER_PATCH = [
+    (
+        "                if bound_stmt.bound_variable is not None:\n"
+        "                    assertion.source = bound_stmt.bound_variable\n"
+        "                bound_stmt.assertions.append(assertion)\n",
+        "                if bound_stmt.bound_variable is not None:\n"
+        "                    assertion.source = bound_stmt.bound_variable\n"
+        "                # The assert observes the state after the most recently admitted statement\n"
+        "                # (which may have mutated the object), not the state right after the binding.\n"
+        "                last_stmt = state.testcase.get_statement(state.testcase.size() - 1)\n"
+        "                last_stmt.assertions.append(assertion)\n",
+    ),
+    (
+        "    def visit_Attribute(self, node: cst.Attribute) -> bool:  # noqa: N802\n"
+        "        chain = _dotted_chain(node)\n"
+        "        if chain is not None:\n"
+        "            if self._in_target == 0:\n",
+        "    def visit_Lambda(self, node: cst.Lambda) -> bool:  # noqa: N802\n"
+        "        # Lambda parameters are bound by the lambda itself, not read from the test's scope.\n"
+        "        inner = _RootNameCollector()\n"
+        "        node.body.visit(inner)\n"
+        "        self.names.update(inner.names - set(_params_names(node.params)))\n"
+        "        for param in (*node.params.posonly_params, *node.params.params, *node.params.kwonly_params):\n"
+        "            if param.default is not None:\n"
+        "                param.default.visit(self)\n"
+        "        return False\n\n"
+        "    def visit_Attribute(self, node: cst.Attribute) -> bool:  # noqa: N802\n"
+        "        chain = _dotted_chain(node)\n"
+        "        if chain is not None:\n"
+        "            if self._in_target == 0:\n",
+    ),
+]
+
+
 def _patched_namespace(module, replacements):
     from pathlib import Path
 
     src = Path(module.__file__).read_text()
-    for old, new in replacements:
-        if src.count(old) != 1:
-            raise RuntimeError(f"proposed patch does not apply to {module.__file__}: {old[:60]!r} occurs {src.count(old)} times")
+    for old, new, *count in replacements:
+        want = count[0] if count else 1
+        if src.count(old) != want:
+            raise RuntimeError(f"proposed patch does not apply to {module.__file__}: {old[:60]!r} occurs {src.count(old)} times, expected {want}")
         src = src.replace(old, new)
     ns = {"__name__": module.__name__, "__file__": module.__file__}  # real name: dataclasses looks the module up in sys.modules
     exec(compile(src, module.__file__, "exec"), ns)  # noqa: S102
@@ -309,6 +377,23 @@ def _fix_needs_pytest():
     export.TestSuiteWriter.write = ns["TestSuiteWriter"].write
 
 
+def _fix_minimizer():
+    import pynguin.ga.postprocess as pp
+
+    ns = _patched_namespace(pp, MINIMIZER_PATCH)
+    pp.ForwardIterativeMinimizationVisitor.visit_default_test_case = ns["ForwardIterativeMinimizationVisitor"].visit_default_test_case
+    pp.BackwardIterativeMinimizationVisitor.visit_default_test_case = ns["BackwardIterativeMinimizationVisitor"].visit_default_test_case
+    pp.CombinedMinimizationVisitor._minimize_statements_across_test_suite = ns["CombinedMinimizationVisitor"]._minimize_statements_across_test_suite
+
+
+def _fix_deserializer():
+    import pynguin.large_language_model.parsing.deserializer as de
+
+    ns = _patched_namespace(de, DESERIALIZER_PATCH)
+    de._RootNameCollector.visit_Lambda = ns["_RootNameCollector"].visit_Lambda
+    de.CstStatementDeserializer._handle_assert = ns["CstStatementDeserializer"]._handle_assert
+
+
 BREAKS = {
     "writer_omits_import_sys": _writer_omits_import_sys,
     "export_flips_eq": _export_flips_eq,
@@ -325,6 +410,8 @@ BREAKS = {
     "deserializer_lifts_len_off_by_one": _deserializer_lifts_len_off_by_one,
     "fix_ruv": _fix_ruv,
     "fix_needs_pytest": _fix_needs_pytest,
+    "fix_minimizer": _fix_minimizer,
+    "fix_deserializer": _fix_deserializer,
 }
 
 
@@ -359,6 +446,8 @@ def _count_timeout_warnings(events):
                 msg = record.getMessage()
             except Exception:  # noqa: BLE001
                 return
+            if record.name.startswith("pynguin.testcase."):
+                counts["executor_warnings"] += 1  # timeouts, crashed / unreadable subprocesses, threads without result
             if "imeout" in msg:
                 counts["timeouts"] += 1
             elif record.levelno >= logging.ERROR:
